@@ -18,7 +18,9 @@ fn replay_fn(prop: &str) -> Option<fn(&str, &serde_json::Value) -> Verdict> {
     match prop {
         "C01" => Some(props::c01::replay),
         "C02" => Some(props::c02::replay),
+        "C09" => Some(props::c09::replay),
         "C11" => Some(props::c11::replay),
+        "C12" => Some(props::c12::replay),
         "C03" => Some(props::c03::replay),
         "C04" => Some(props::c04::replay),
         "C05" => Some(props::c05::replay),
@@ -54,7 +56,9 @@ fn main() {
             let code = match prop.as_str() {
                 "C01" => props::c01::run(&ctx),
                 "C02" => props::c02::run(&ctx),
+                "C09" => props::c09::run(&ctx),
                 "C11" => props::c11::run(&ctx),
+                "C12" => props::c12::run(&ctx),
                 "C03" => props::c03::run(&ctx),
                 "C04" => props::c04::run(&ctx),
                 "C05" => props::c05::run(&ctx),
